@@ -1,3 +1,163 @@
-(* C09 - property theorems (being filled in). *)
-From Coq Require Import List NArith ZArith Bool.
-From HV Require Import Model.ValidityWindow.
+(* C09 — a transaction is never included twice on one chain.  Property theorems only.
+
+   Objects (Model/ValidityWindow.v): a block tree [tree : id -> option block] (blocks carry parent,
+   height, timestamp and items = (id, expiry) pairs), the window [W], the TimeValidityWindow model
+   (Accept / isRepeat walk / VerifyExpiryReplayProtection / populate), driven by a list of
+   consensus-engine calls [ops].  [eng_run] checks the engine contract against the outputs of the
+   calls and collects in [e_ever] every block whose Verify returned nil.
+
+   Hypotheses [tree_ok0 tree]: ids are consistent, height = parent height + 1, timestamps are
+   non-negative and non-decreasing along parent links, an item id determines its expiry (hash
+   oracle).  [interval_ok W b]: every item of b satisfies ts <= expiry <= ts + W (both bounds are
+   used: the upper one puts the earlier inclusion inside the walked range; for transactions this
+   is chain.Base.Execute / C10).  [ts_pos tree]: non-genesis
+   blocks have a positive timestamp (F-23; without it the statement is false, see
+   C09_expiry0_refuted).
+
+   [clean tree W b] (Proofs): on the path from b to genesis every block has pairwise different item
+   ids, no two different blocks of the path share an item id, and every block satisfies
+   [interval_ok]. *)
+From Coq Require Import List NArith ZArith Bool Lia.
+Import ListNotations.
+From HV Require Import Model.ValidityWindow Proofs.ValidityWindow_proofs.
+Local Open Scope Z_scope.
+
+(* All trees, all call sequences respecting the engine contract (forks, any accept/verify/reject
+   order, lagging accept, restarts with index pruning), any constant window. *)
+Theorem C09_no_repeat : forall (tree : index) (W : Z) (g : N) (gb : block) (ops : list op) (e : eng),
+  tree_ok0 tree -> ts_pos tree -> (forall i b, tree i = Some b -> interval_ok W b) ->
+  tree g = Some gb -> b_height gb = 0%N -> NoDup (ids (b_items gb)) ->
+  eng_run tree (eng0 g) ops (run vf_replay tree W (sys0 tree W gb) ops) = Some e ->
+  forall v, In v (e_ever e) -> exists vb, tree v = Some vb /\ clean tree W vb.
+Proof.
+  intros tree W g gb ops e TOK POS INT Hg Hh Hnd Hrun.
+  assert (forall idx w b, in_tree tree b -> vf_replay tree idx w W b = 0%N ->
+            verify_replay idx w W b = 0%N /\ interval_ok W b) as VF
+    by (intros idx w b Hb Hv; split; [exact Hv | exact (INT _ _ Hb)]).
+  exact (run_inv tree W TOK vf_replay VF POS ops _ _ e
+           (inv0 tree W TOK g gb Hg Hh Hnd (INT _ _ Hg)) Hrun).
+Qed.
+Print Assumptions C09_no_repeat.
+
+(* The builder's filter: dropping the items IsRepeat marks (chain/builder.go, "if dup.Contains(i)
+   continue") yields a block on the same parent and timestamp that VerifyExpiryReplayProtection
+   accepts, for every window state and chain index. *)
+Theorem C09_builder : forall (W : Z) (idx : index) (w : win) (parent : block) (now : Z)
+                             (items : list item) (m : list bool) (newid : N),
+  idx (b_id parent) = Some parent ->
+  is_repeat idx w W parent now items = (m, false) ->
+  NoDup (ids (kept items m)) ->
+  verify_replay idx w W (mkB newid (b_id parent) (N.succ (b_height parent)) now (kept items m)) = 0%N.
+Proof. exact builder_agrees. Qed.
+Print Assumptions C09_builder.
+
+(* Restart: a window rebuilt from the chain index that reports completeness (walk reached genesis
+   or a block below the window) satisfies the invariant used by C09_no_repeat: every unexpired,
+   non-zero-expiry item of head's ancestry is tracked, and the boundary height is head's. *)
+Theorem C09_restart : forall (tree : index) (W : Z) (idx : index) (head : block) (w : win),
+  tree_ok0 tree -> sub idx tree -> in_tree tree head ->
+  (forall a, reach tree head a -> interval_ok W a) ->
+  new_window idx W head = (w, true) ->
+  last_h w = b_height head /\
+  (forall a x e, reach tree head a -> In (x, e) (b_items a) -> b_ts head <= e -> e <> 0 ->
+                 em_has (seen w) x = true) /\
+  (forall x e, In (x, e) (seen w) -> exists i b, tree i = Some b /\ In (x, e) (b_items b)).
+Proof. intros tree W idx head w TOK. exact (populate_complete tree W TOK idx head w). Qed.
+Print Assumptions C09_restart.
+
+(* VerifyTimestamp accepts exactly the aligned expiries inside [ts, ts + W] (Go's truncated %). *)
+Theorem C09_interval_test : forall ct et d W : Z,
+  verify_timestamp ct et d W = 0%N <-> Z.rem ct d = 0 /\ et <= ct <= et + W.
+Proof.
+  intros. unfold verify_timestamp.
+  destruct (Z.eqb_spec (Z.rem ct d) 0); cbn [negb]; [|split; [discriminate | tauto]].
+  destruct (Z.ltb_spec ct et); [split; [discriminate | lia]|].
+  destruct (Z.gtb_spec ct (et + W)); [split; [discriminate | lia]|].
+  split; [lia | reflexivity].
+Qed.
+Print Assumptions C09_interval_test.
+
+(* ---- concrete trees: non-vacuity and the F-23 witness ---- *)
+Ltac tcases_go H :=
+  match type of H with
+  | (if (?k =? ?i)%N then _ else _) = Some _ =>
+      destruct (N.eqb_spec k i); [inversion H; subst; clear H | tcases_go H]
+  | _ => discriminate H
+  end.
+Ltac tcases H := unfold tree_of in H; cbn [find b_id] in H; tcases_go H.
+
+Ltac tree_ok0_tac :=
+  constructor;
+  [ intros i b H; tcases H; reflexivity
+  | intros i b H Hh; tcases H; cbn [b_height] in Hh; try congruence;
+      (eexists; split; [reflexivity | split; [reflexivity | cbn [b_ts]; lia]])
+  | intros i b H; tcases H; cbn [b_ts]; lia
+  | intros i j b b' x e e' H H' Hin Hin'; tcases H; tcases H'; cbn [b_items In] in *;
+      repeat match goal with
+             | Hx : _ \/ _ |- _ => destruct Hx
+             | Hx : (_, _) = (_, _) |- _ => inversion Hx; subst; clear Hx
+             | Hx : False |- _ => contradiction
+             end; try reflexivity; try congruence ].
+
+(* a fork: block 3 repeats item 7 of its parent 1 and is rejected, before and after Accept(1) and
+   after a restart; blocks 1 and 2 verify *)
+Definition ex_blocks : list block :=
+  [ mkB 0 99 0 0 []; mkB 1 0 1 1 [(7%N, 3)]; mkB 2 1 2 2 [(8%N, 3)]; mkB 3 1 2 2 [(7%N, 3)] ].
+Definition ex_ops : list op :=
+  [OVerify 1; OVerify 2; OVerify 3; OAccept 1; OVerify 3; ORestart 1 0; OVerify 2; OVerify 3;
+   OIsRepeat 1 2 [(7%N, 3); (8%N, 3)]].
+
+Example C09_hypotheses_satisfiable :
+  tree_ok0 (tree_of ex_blocks) /\ ts_pos (tree_of ex_blocks) /\
+  (forall i b, tree_of ex_blocks i = Some b -> interval_ok 5 b).
+Proof.
+  split; [unfold ex_blocks; tree_ok0_tac|]. split.
+  - intros i b H Hh. unfold ex_blocks in H. tcases H; cbn [b_height b_ts] in *; try congruence; lia.
+  - intros i b H x e Hin. unfold ex_blocks in H. tcases H; cbn [b_items In b_ts] in *;
+      repeat match goal with
+             | Hx : _ \/ _ |- _ => destruct Hx
+             | Hx : (_, _) = (_, _) |- _ => inversion Hx; subst; clear Hx
+             | Hx : False |- _ => contradiction
+             end; lia.
+Qed.
+
+Example C09_contract_satisfiable :
+  let tree := tree_of ex_blocks in
+  run vf_replay tree 5 (sys0 tree 5 (mkB 0 99 0 0 [])) ex_ops =
+    [OutV 0; OutV 0; OutV 1; OutUnit; OutV 1; OutR true; OutV 0; OutV 1; OutI [true; false] false] /\
+  option_map e_ever (eng_run tree (eng0 0) ex_ops (run vf_replay tree 5 (sys0 tree 5 (mkB 0 99 0 0 [])) ex_ops))
+    = Some [2; 2; 1; 0]%N.
+Proof. vm_compute. split; reflexivity. Qed.
+
+Example C09_builder_example :
+  let tree := tree_of ex_blocks in
+  let w := accept (fst (new_window tree 5 (mkB 0 99 0 0 []))) (mkB 1 0 1 1 [(7%N, 3)]) in
+  is_repeat tree w 5 (mkB 1 0 1 1 [(7%N, 3)]) 2 [(7%N, 3); (8%N, 3)] = ([true; false], false) /\
+  kept [(7%N, 3); (8%N, 3)] [true; false] = [(8%N, 3)].
+Proof. vm_compute. split; reflexivity. Qed.
+
+(* F-23: all hypotheses except [ts_pos].  Item 7 has expiry 0 and is included in block 1
+   (timestamp 0, as allowed by MinBlockGap = 0); the emap never tracks expiry 0, so after
+   Accept(1) the child 2 (timestamp 0) repeating item 7 verifies.  Reproduced on the real
+   TimeValidityWindow by the driver (signature repeat-of-item-with-expiry-0-after-accept). *)
+Definition f23_blocks : list block :=
+  [ mkB 0 99 0 0 []; mkB 1 0 1 0 [(7%N, 0)]; mkB 2 1 2 0 [(7%N, 0)] ].
+
+Theorem C09_expiry0_refuted :
+  exists (bs : list block) (W : Z) (ops : list op) (e : eng),
+    tree_ok0 (tree_of bs) /\ (forall i b, tree_of bs i = Some b -> interval_ok W b) /\
+    eng_run (tree_of bs) (eng0 0) ops
+            (run vf_replay (tree_of bs) W (sys0 (tree_of bs) W (mkB 0 99 0 0 [])) ops) = Some e /\
+    In 2%N (e_ever e) /\ cleanb (tree_of bs) 2 = false.
+Proof.
+  exists f23_blocks, 5, [OVerify 1; OAccept 1; OVerify 2], (mkE [2; 1]%N 1%N [2; 1; 0]%N).
+  split; [unfold f23_blocks; tree_ok0_tac|]. split.
+  - intros i b H x e Hin. unfold f23_blocks in H. tcases H; cbn [b_items In b_ts] in *;
+      repeat match goal with
+             | Hx : _ \/ _ |- _ => destruct Hx
+             | Hx : (_, _) = (_, _) |- _ => inversion Hx; subst; clear Hx
+             | Hx : False |- _ => contradiction
+             end; lia.
+  - vm_compute. repeat split; try reflexivity. left. reflexivity.
+Qed.
+Print Assumptions C09_expiry0_refuted.
